@@ -20,6 +20,8 @@ type mini struct {
 	undec  string
 	depth  int
 	opaque map[string]func(args []mval) mval // callee name -> stub
+	fields map[string]mval                   // struct fields of locals / parameters, keyed by the rendered selector
+	trace  []string                          // appends / increments encountered (for accumulator-style code)
 }
 
 type mval struct {
@@ -78,12 +80,24 @@ func (m *mini) eval(env *menv, e ast.Expr) mval {
 				return v
 			}
 		}
-		// field of a struct parameter: looked up by rendered path
-		for o, v := range env.vars {
-			_ = o
-			_ = v
+		if v, ok := m.fields[core.Str(x)]; ok {
+			return v
+		}
+		// zero value of an unset boolean / integer field
+		if t := env.info.TypeOf(x); t != nil {
+			if b, ok := t.Underlying().(*types.Basic); ok {
+				if b.Kind() == types.Bool {
+					return mBool(false)
+				}
+				if b.Info()&types.IsInteger != 0 {
+					return mInt(0)
+				}
+			}
 		}
 		return m.fail("unbound selector %s", core.Str(x))
+	case *ast.CompositeLit:
+		// struct literal: record its keyed fields under the literal's own rendering; the assignment copies them
+		return mval{kind: "struct"}
 	case *ast.IndexExpr:
 		a := m.eval(env, x.X)
 		i := m.eval(env, x.Index)
@@ -330,10 +344,42 @@ func (m *mini) block(env *menv, list []ast.Stmt) (ret []mval, returned bool) {
 					return r, true
 				}
 			}
+		case *ast.IncDecStmt:
+			m.trace = append(m.trace, core.Str(s.X)+s.Tok.String())
 		case *ast.AssignStmt:
 			if len(s.Lhs) == len(s.Rhs) {
 				for i, l := range s.Lhs {
 					if id, ok := l.(*ast.Ident); ok && id.Name == "_" {
+						continue
+					}
+					if c, ok := ast.Unparen(s.Rhs[i]).(*ast.CallExpr); ok && core.CallName(env.info, c) == "builtin.append" && len(c.Args) == 2 {
+						m.trace = append(m.trace, "append("+core.Str(c.Args[0])+","+core.Str(c.Args[1])+")")
+						continue
+					}
+					if sel, ok := ast.Unparen(l).(*ast.SelectorExpr); ok {
+						if m.fields == nil {
+							m.fields = map[string]mval{}
+						}
+						m.fields[core.Str(sel)] = m.eval(env, s.Rhs[i])
+						continue
+					}
+					if cl, ok := ast.Unparen(s.Rhs[i]).(*ast.CompositeLit); ok {
+						// x := T{F: v, ...}: record x.F
+						if m.fields == nil {
+							m.fields = map[string]mval{}
+						}
+						for _, el := range cl.Elts {
+							if kv, ok := el.(*ast.KeyValueExpr); ok {
+								if t := env.info.TypeOf(kv.Value); t != nil {
+									if b, ok := t.Underlying().(*types.Basic); ok && b.Info()&(types.IsBoolean|types.IsInteger) != 0 {
+										m.fields[core.Str(l)+"."+core.Str(kv.Key)] = m.eval(env, kv.Value)
+									}
+								}
+							}
+						}
+						if o := core.ObjOf(env.info, l); o != nil {
+							env.vars[o] = mval{kind: "struct"}
+						}
 						continue
 					}
 					v := m.eval(env, s.Rhs[i])
